@@ -23,6 +23,9 @@ type Effect struct {
 	Late  bool
 	Recv  *Term
 	Inner ssa.Instruction // own(): the real site inside a new helper (In is the caller's call)
+	// Anchor (closure()): the call instruction in the queried function through which the
+	// effect is reached (nil for the function's own direct effects)
+	Anchor *ssa.Call
 }
 
 func (e Effect) String() string {
@@ -51,6 +54,15 @@ type Summary struct {
 	calls  []callEdge
 	// dynamic calls inside module code that could not be resolved or classified
 	unresolved []string
+	// dynamic calls of a function value that depends on the parameters of a NEW helper:
+	// resolved per caller when the effect closure substitutes the argument
+	dyn []dynCall
+}
+
+type dynCall struct {
+	In   *ssa.Call
+	Fn   *Term   // the called value, in the enclosing function's frame
+	Args []*Term // argument terms
 }
 
 var summaryCache = map[*ssa.Function]*Summary{}
@@ -349,7 +361,20 @@ func (p *Prog) classifyCall(x *TX, s *Summary, in ssa.Instruction, c *ssa.CallCo
 	if callee == nil {
 		// dynamic call of a function value inside module code
 		if _, isClosure := c.Value.(*ssa.MakeClosure); !isClosure {
-			s.unresolved = append(s.unresolved, fmt.Sprintf("dynamic call of %s at %s", x.Of(c.Value, in), p.instrPos(in)))
+			ft := x.Of(c.Value, in)
+			top := x.fn
+			for top.Parent() != nil {
+				top = top.Parent()
+			}
+			if call, ok := in.(*ssa.Call); ok && p.newHelper(top) && (ft.hasParam() || ft.hasFreeVar()) {
+				dc := dynCall{In: call, Fn: ft}
+				for i := range c.Args {
+					dc.Args = append(dc.Args, arg(i))
+				}
+				s.dyn = append(s.dyn, dc)
+				return
+			}
+			s.unresolved = append(s.unresolved, fmt.Sprintf("dynamic call of %s at %s", ft, p.instrPos(in)))
 		}
 		return
 	}
@@ -475,11 +500,20 @@ func isModuleIface(T types.Type) bool {
 // transitive closure with parameter substitution
 
 // substTerm rewrites parameter atoms of a callee-frame term by the caller's argument terms.
-func substTerm(t *Term, env []*Term) *Term {
+func substTerm(t *Term, env []*Term) *Term { return substTermFV(t, env, nil) }
+
+// substTermFV additionally rewrites the free variables of a closure body (fv: "fv:name" ->
+// the value bound when the closure was made).
+func substTermFV(t *Term, env []*Term, fv map[string]*Term) *Term {
 	if t == nil {
 		return nil
 	}
 	switch t.Op {
+	case "freevar":
+		if b, ok := fv[t.S]; ok {
+			return b
+		}
+		return t
 	case "param":
 		var i int
 		fmt.Sscanf(t.S, "p%d", &i)
@@ -487,12 +521,17 @@ func substTerm(t *Term, env []*Term) *Term {
 			return env[i]
 		}
 		return unknown("unbound " + t.S)
-	case "const", "k", "ctx", "global", "none", "func", "builtin", "unknown", "map", "loop", "freevar":
+	case "const", "k", "ctx", "global", "none", "func", "builtin", "unknown", "map", "loop":
 		return t
 	}
-	nt := &Term{Op: t.Op, S: t.S, F: t.F, T: t.T}
+	nt := &Term{Op: t.Op, S: t.S, F: t.F, T: t.T, Fn: t.Fn}
 	for _, a := range t.A {
-		nt.A = append(nt.A, substTerm(a, env))
+		nt.A = append(nt.A, substTermFV(a, env, fv))
+	}
+	if nt.Op == "dyncall" {
+		if r := applyFuncTerm(nt.A[0], nt.A[1:]); r != nil {
+			return r
+		}
 	}
 	// substitution can disturb the canonical operand order of commutative forms
 	if nt.Op == "bin" && len(nt.F) == 1 && nt.F[0] == "comm" && len(nt.A) == 2 {
@@ -524,31 +563,183 @@ func substTerm(t *Term, env []*Term) *Term {
 	return nt
 }
 
-// Closure returns all effects reachable from fn through module code, with key
-// and value terms rewritten into fn's own frame.
-func (p *Prog) closure(fn *ssa.Function) []Effect {
-	var out []Effect
-	var visit func(f *ssa.Function, env []*Term, chain []string, depth int)
+// frame is the binding of a visited function's parameters (and, for a closure body, free
+// variables) to terms of the root function's frame. identity: the root itself.
+type frame struct {
+	env      []*Term
+	fv       map[string]*Term
+	identity bool
+	helper   bool // the visited function is a NEW helper: its loop counters are renamed
+}
+
+func (fr frame) sub(t *Term) *Term {
+	if t == nil {
+		return nil
+	}
+	if fr.helper {
+		t = markHelperCounters(t)
+	}
+	if fr.identity {
+		return t
+	}
+	return substTermFV(t, fr.env, fr.fv)
+}
+
+// resolvedFn: what a function-valued term denotes.
+type resolvedFn struct {
+	fn  *ssa.Function
+	pre []*Term          // leading arguments (the receiver of a bound method value)
+	fv  map[string]*Term // free-variable bindings of an anonymous closure
+}
+
+func (p *Prog) resolveFuncTerm(ft *Term) (resolvedFn, bool) {
+	if ft == nil || ft.Fn == nil {
+		return resolvedFn{}, false
+	}
+	switch ft.Op {
+	case "func":
+		if ft.Fn.Blocks != nil {
+			return resolvedFn{fn: ft.Fn}, true
+		}
+	case "closure":
+		if strings.HasPrefix(ft.Fn.Synthetic, "bound method wrapper") {
+			if obj, ok := ft.Fn.Object().(*types.Func); ok {
+				if m := p.SSA.FuncValue(obj); m != nil && m.Blocks != nil {
+					return resolvedFn{fn: m, pre: ft.A}, true
+				}
+			}
+			return resolvedFn{}, false
+		}
+		if ft.Fn.Blocks != nil {
+			fv := map[string]*Term{}
+			for i, v := range ft.Fn.FreeVars {
+				if i < len(ft.A) {
+					fv["fv:"+v.Name()] = ft.A[i]
+				}
+			}
+			return resolvedFn{fn: ft.Fn, fv: fv}, true
+		}
+	}
+	return resolvedFn{}, false
+}
+
+// visitor callbacks of walkCalls
+type walkVisitor struct {
+	onlyNew bool // descend only into NEW helpers (and the functions they are handed)
+	effect  func(e Effect, orig Effect, f *ssa.Function, fr frame, anchor *ssa.Call, chain []string)
+	unres   func(what string, f *ssa.Function, anchor *ssa.Call, chain []string)
+	call    func(callee *ssa.Function, site *ssa.Call, anchor *ssa.Call, f *ssa.Function) // every resolved call edge
+}
+
+// walkCalls traverses the module call graph from root, binding parameters to the root's
+// terms and resolving calls of function-valued parameters of new helpers per call site.
+func (p *Prog) walkCalls(root *ssa.Function, v walkVisitor) {
 	onStack := map[*ssa.Function]bool{}
-	visit = func(f *ssa.Function, env []*Term, chain []string, depth int) {
+	var visit func(f *ssa.Function, fr frame, anchor *ssa.Call, chain []string, depth int)
+	visit = func(f *ssa.Function, fr frame, anchor *ssa.Call, chain []string, depth int) {
 		if depth > 12 || onStack[f] {
 			return
 		}
 		onStack[f] = true
 		defer delete(onStack, f)
 		s := p.effects(f)
-		for _, e := range s.direct {
-			ne := e
-			if env != nil {
-				ne.Key = substTerm(e.Key, env)
-				ne.Val = substTerm(e.Val, env)
+		here := append(append([]string(nil), chain...), funcName(f))
+		if v.effect != nil {
+			for _, e := range s.direct {
+				ne := e
+				ne.Key, ne.Val = fr.sub(e.Key), fr.sub(e.Val)
 				if ne.Late {
-					ne.Recv = substTerm(e.Recv, env)
+					ne.Recv = fr.sub(e.Recv)
 					if region, ok := p.regionOf(ne.Recv, ne.Key); ok {
 						ne.Region, ne.Late = region, false
 					}
 				}
+				v.effect(ne, e, f, fr, anchor, here)
 			}
+		}
+		if v.unres != nil {
+			for _, u := range s.unresolved {
+				v.unres(u, f, anchor, here)
+			}
+		}
+		descend := func(callee *ssa.Function, nfr frame, site *ssa.Call) {
+			an := anchor
+			if an == nil {
+				an = site
+			}
+			if v.call != nil {
+				v.call(callee, site, an, f)
+			}
+			top := callee
+			for top.Parent() != nil {
+				top = top.Parent()
+			}
+			nfr.helper = p.newHelper(top)
+			if v.onlyNew && !nfr.helper && callee.Parent() == nil {
+				return
+			}
+			visit(callee, nfr, an, here, depth+1)
+		}
+		for _, ce := range s.calls {
+			nfr := frame{identity: ce.Args == nil && fr.identity}
+			if ce.Args != nil {
+				nfr.env = make([]*Term, len(ce.Args))
+				for i, a := range ce.Args {
+					nfr.env[i] = fr.sub(a)
+				}
+			} else if !fr.identity {
+				// a closure made here: its free variables are this frame's values
+				nfr.env, nfr.fv, nfr.identity = nil, nil, true
+			}
+			if v.onlyNew && !p.newHelper(ce.Callee) && ce.Callee.Parent() == nil {
+				if v.call != nil && ce.In != nil {
+					an := anchor
+					if an == nil {
+						an = ce.In
+					}
+					v.call(ce.Callee, ce.In, an, f)
+				}
+				continue
+			}
+			descend(ce.Callee, nfr, ce.In)
+		}
+		for _, dc := range s.dyn {
+			ft := fr.sub(dc.Fn)
+			rf, ok := p.resolveFuncTerm(ft)
+			if !ok {
+				if v.unres != nil {
+					v.unres(fmt.Sprintf("dynamic call of %s at %s", ft, p.instrPos(dc.In)), f, anchor, here)
+				}
+				continue
+			}
+			nfr := frame{fv: rf.fv}
+			nfr.env = append(nfr.env, rf.pre...)
+			for _, a := range dc.Args {
+				nfr.env = append(nfr.env, fr.sub(a))
+			}
+			if v.onlyNew && !p.newHelper(rf.fn) && rf.fn.Parent() == nil {
+				// a known function handed to a new helper and called there: a call edge of the root
+				if v.call != nil {
+					an := anchor
+					if an == nil {
+						an = dc.In
+					}
+					v.call(rf.fn, dc.In, an, f)
+				}
+				continue
+			}
+			descend(rf.fn, nfr, dc.In)
+		}
+	}
+	visit(root, frame{identity: true}, nil, nil, 0)
+}
+
+// Closure returns all effects reachable from fn through module code, with key
+// and value terms rewritten into fn's own frame.
+func (p *Prog) closure(fn *ssa.Function) []Effect {
+	var out []Effect
+	p.walkCalls(fn, walkVisitor{
+		effect: func(ne, e Effect, f *ssa.Function, fr frame, anchor *ssa.Call, chain []string) {
 			if ne.Late {
 				ks := ""
 				if ne.Key != nil {
@@ -556,35 +747,22 @@ func (p *Prog) closure(fn *ssa.Function) []Effect {
 				}
 				ne = Effect{Kind: "ESCAPE", Region: "unresolved store region for " + ne.Recv.String() + ks, In: e.In, Fn: e.Fn}
 			}
-			ne.Chain = append(append([]string(nil), chain...), funcName(f))
+			ne.Chain = chain
+			ne.Anchor = anchor
 			out = append(out, ne)
-		}
-		for _, u := range s.unresolved {
-			out = append(out, Effect{Kind: "UNRESOLVED", Region: u, Fn: f, Chain: append(append([]string(nil), chain...), funcName(f))})
-		}
-		for _, ce := range s.calls {
-			var nenv []*Term
-			if ce.Args != nil {
-				nenv = make([]*Term, len(ce.Args))
-				for i, a := range ce.Args {
-					if env != nil {
-						nenv[i] = substTerm(a, env)
-					} else {
-						nenv[i] = a
-					}
-				}
-			}
-			visit(ce.Callee, nenv, append(append([]string(nil), chain...), funcName(f)), depth+1)
-		}
-	}
-	visit(fn, nil, nil, 0)
+		},
+		unres: func(u string, f *ssa.Function, anchor *ssa.Call, chain []string) {
+			out = append(out, Effect{Kind: "UNRESOLVED", Region: u, Fn: f, Chain: chain, Anchor: anchor})
+		},
+	})
 	return out
 }
 
 // own returns the effects a KNOWN function performs itself: its direct effects plus those
-// of the NEW helpers it calls (transitively through new helpers only), rewritten into its
-// frame and anchored at its own call instruction (Inner keeps the real site). A new helper
-// has no effects of its own in this sense: they belong to whoever calls it.
+// of the NEW helpers it calls (transitively through new helpers, and through the functions
+// those helpers are handed as values), rewritten into its frame and anchored at its own
+// call instruction (Inner keeps the real site). A new helper has no effects of its own in
+// this sense: they belong to whoever calls it.
 func (p *Prog) own(fn *ssa.Function) []Effect {
 	if p.newHelper(fn) {
 		return nil
@@ -596,51 +774,82 @@ func (p *Prog) own(fn *ssa.Function) []Effect {
 // judge a new helper in its own right).
 func (p *Prog) ownInner(fn *ssa.Function) []Effect {
 	var out []Effect
-	for _, e := range p.effects(fn).direct {
-		out = append(out, e)
-	}
-	var visit func(f *ssa.Function, env []*Term, anchor *ssa.Call, depth int, stack map[*ssa.Function]bool)
-	visit = func(f *ssa.Function, env []*Term, anchor *ssa.Call, depth int, stack map[*ssa.Function]bool) {
-		if depth > 6 || stack[f] {
-			return
-		}
-		stack[f] = true
-		defer delete(stack, f)
-		s := p.effects(f)
-		for _, e := range s.direct {
-			ne := e
-			ne.Key = substTerm(e.Key, env)
-			ne.Val = substTerm(e.Val, env)
-			if ne.Late {
-				ne.Recv = substTerm(e.Recv, env)
-				if region, ok := p.regionOf(ne.Recv, ne.Key); ok {
-					ne.Region, ne.Late = region, false
-				} else if !p.newHelper(fn) {
-					ne.Kind, ne.Region = "ESCAPE", "unresolved store region for "+ne.Recv.String()
-				}
+	p.walkCalls(fn, walkVisitor{
+		onlyNew: true,
+		effect: func(ne, e Effect, f *ssa.Function, fr frame, anchor *ssa.Call, chain []string) {
+			if f == fn {
+				out = append(out, e)
+				return
+			}
+			if f.Parent() != nil && anchor == nil {
+				return // closures made by fn itself: not fn's own straight-line effects
+			}
+			if ne.Late && !p.newHelper(fn) {
+				ne.Kind, ne.Region = "ESCAPE", "unresolved store region for "+ne.Recv.String()
 			}
 			ne.Inner = e.In
 			ne.In = anchor
 			ne.Fn = fn
 			out = append(out, ne)
-		}
-		for _, ce := range s.calls {
-			if !p.newHelper(ce.Callee) {
-				continue
+		},
+	})
+	return out
+}
+
+// callersOf reports module functions with a call to target. A call made by a NEW helper
+// (or by a function value handed to one) on behalf of a known function counts as that
+// function's call, at its own call of the helper — unless target is itself a new helper.
+func (p *Prog) callersOf(target *ssa.Function) map[*ssa.Function][]*ssa.Call {
+	out := map[*ssa.Function][]*ssa.Call{}
+	if p.newHelper(target) {
+		for _, fn := range p.Funcs {
+			for _, ce := range p.effects(fn).calls {
+				if ce.Callee == target && ce.In != nil {
+					out[fn] = append(out[fn], ce.In)
+				}
 			}
-			nenv := make([]*Term, len(ce.Args))
-			for i, a := range ce.Args {
-				nenv[i] = substTerm(a, env)
-			}
-			visit(ce.Callee, nenv, anchor, depth+1, stack)
 		}
+		return out
 	}
-	for _, ce := range p.effects(fn).calls {
-		if ce.In == nil || !p.newHelper(ce.Callee) {
+	for _, fn := range p.Funcs {
+		top := fn
+		for top.Parent() != nil {
+			top = top.Parent()
+		}
+		if p.newHelper(top) {
 			continue
 		}
-		visit(ce.Callee, ce.Args, ce.In, 1, map[*ssa.Function]bool{fn: true})
+		for _, lc := range p.liftedCalls(fn) {
+			if lc.callee == target {
+				out[fn] = append(out[fn], lc.anchor)
+			}
+		}
 	}
+	return out
+}
+
+type liftedCall struct {
+	callee *ssa.Function
+	anchor *ssa.Call
+}
+
+var liftedCache = map[*ssa.Function][]liftedCall{}
+
+// liftedCalls: the calls fn makes itself or through new helpers.
+func (p *Prog) liftedCalls(fn *ssa.Function) []liftedCall {
+	if lc, ok := liftedCache[fn]; ok {
+		return lc
+	}
+	var out []liftedCall
+	p.walkCalls(fn, walkVisitor{
+		onlyNew: true,
+		call: func(callee *ssa.Function, site, anchor *ssa.Call, f *ssa.Function) {
+			if anchor != nil {
+				out = append(out, liftedCall{callee, anchor})
+			}
+		},
+	})
+	liftedCache[fn] = out
 	return out
 }
 
@@ -694,52 +903,6 @@ func (p *Prog) effectSitesIn(fn *ssa.Function, kinds ...string) []ssa.Instructio
 
 // callersOf returns the module functions with a static call (or closure
 // creation) targeting fn, with the call instructions.
-func (p *Prog) callersOf(target *ssa.Function) map[*ssa.Function][]*ssa.Call {
-	return p.callersOfDepth(target, 0)
-}
-
-// callersOfDepth: direct callers; a caller that is a NEW helper (and the target is not)
-// is replaced by its own callers — a call made by a new helper on behalf of a known
-// function counts as that function's call, at its call of the helper.
-func (p *Prog) callersOfDepth(target *ssa.Function, depth int) map[*ssa.Function][]*ssa.Call {
-	out := map[*ssa.Function][]*ssa.Call{}
-	for _, fn := range p.Funcs {
-		for _, ce := range p.effects(fn).calls {
-			if ce.Callee != target || ce.In == nil {
-				continue
-			}
-			if p.newHelper(fn) && !p.newHelper(target) && depth < 4 {
-				for up, calls := range p.callersOfLifted(fn, depth+1) {
-					out[up] = append(out[up], calls...)
-				}
-				continue
-			}
-			out[fn] = append(out[fn], ce.In)
-		}
-	}
-	return out
-}
-
-// callersOfLifted: known functions that reach helper h through new helpers only.
-func (p *Prog) callersOfLifted(h *ssa.Function, depth int) map[*ssa.Function][]*ssa.Call {
-	out := map[*ssa.Function][]*ssa.Call{}
-	for _, fn := range p.Funcs {
-		for _, ce := range p.effects(fn).calls {
-			if ce.Callee != h || ce.In == nil {
-				continue
-			}
-			if p.newHelper(fn) && depth < 4 {
-				for up, calls := range p.callersOfLifted(fn, depth+1) {
-					out[up] = append(out[up], calls...)
-				}
-				continue
-			}
-			out[fn] = append(out[fn], ce.In)
-		}
-	}
-	return out
-}
-
 // funcValueEscapes reports module-code sites where target is used as a value
 // (stored, passed, bound) rather than called.
 func (p *Prog) funcValueUses(target *ssa.Function) []string {
